@@ -232,6 +232,17 @@ class ReplDict(SyncObjConsumer):
         return self.__data
 
 
+def _valueKey(x):
+    # An order of set members that depends on their value only: repr() of a frozenset lists its
+    # members in hash-table order, which differs between a replica that built the value from the
+    # log and one that got it from a snapshot.
+    if isinstance(x, (frozenset, set)):
+        return (type(x).__name__, sorted(_valueKey(y) for y in x))
+    if isinstance(x, tuple):
+        return (type(x).__name__, [_valueKey(y) for y in x])
+    return (type(x).__name__, repr(x))
+
+
 class ReplSet(SyncObjConsumer):
     def __init__(self):
         """
@@ -277,7 +288,7 @@ class ReplSet(SyncObjConsumer):
             raise KeyError('pop from an empty set')
         # set.pop() chooses by the layout of the hash table, which differs between replicas (another
         # process, a replica rebuilt from a snapshot): every replica has to remove the same element.
-        item = min(self.__data, key=lambda x: (type(x).__name__, repr(x)))
+        item = min(self.__data, key=_valueKey)
         self.__data.remove(item)
         return item
 
